@@ -301,6 +301,14 @@ def add_emitted_file(state, file_path, file_format, file_extension):
             write_path = write_path[:-4]
         if file_extension is not None:
             write_path += f".{file_extension}"
+        if write_path == state["filename"]:
+            # 'make_raw' in 'prog.s': there is no '.mac' to take off and nothing
+            # to add
+            reports.error(
+                "io-error",
+                (state["insn"].ctx_start, state["insn"].ctx_end, f"The default output path is the source file '{write_path}' itself, which would be overwritten.\nGive the output file a name: '{state['insn'].name.name} \"...\"'.")
+            )
+            return
     state["compiler"].emitted_files.append((state["insn"].ctx_start, state["insn"].ctx_end, file_format, write_path))
 
 
